@@ -1,5 +1,6 @@
 import CM.Lib.Wire
 import CM.Model.OCSP
+import CM.Generated.Fn
 /-!
 Driver handler for C14.
 
@@ -98,12 +99,22 @@ def respTag (i : StapleIn) : String :=
     | .answer r => "+" ++ (match r.status with | .good => "g" | .revoked => "r" | .unknown => "u") ++
         (if answerVerifies r then "" else "V") ++ (if current i.now r then "" else "x") ++ (if pastExpiry i r then "E" else ""))
 
+/-- the TRANSLATED `currentOCSP` (CM/Generated/Fn, printed from the source on this run) agrees with the
+model's `current` on the responses of this line (absent NextUpdate = the zero time) -/
+def genCurrentAgrees (i : StapleIn) : Bool :=
+  let rs : List Resp := (match i.persisted with | .parsed r => [r] | _ => []) ++
+    (match i.responder with | .answer r => [r] | _ => [])
+  !(CM.Gen.Fn.translated.contains "currentOCSP") ||
+  rs.all (fun r => r.nextUpdate == some 0 ||
+    CM.Gen.Fn.currentOCSP i.now ⟨r.thisUpdate, r.nextUpdate.getD 0⟩ == current i.now r)
+
 def handle (args impl : List String) : String :=
   match args with
   | ["staple", via, dis, pers, resp, iic, nb, na, now, sf] =>
     match stapleIn dis pers resp iic nb na now sf with
     | none => bad
     | some i =>
+      if !genCurrentAgrees i then reply "translated-definition-differs-from-model" "-" "!" else
       let o := staple i
       let direct := via = "direct"
       let model := showOptResp o.ocspSet ++ " " ++ showOptResp (o.stapled.map (·.2)) ++ " " ++
